@@ -1,8 +1,7 @@
-(* Byte I/O around the extracted model: reads one case per line, prints one
-   canonical result line per case, in the same format as the Rust harness. *)
-open Datatypes
+(* Shared helpers of the model drivers (copied next to every engine's
+   extracted code): hexadecimal text <-> Coq Z, line loop. *)
 open BinNums
-open Base
+open Datatypes
 
 (* ---- numbers: hexadecimal text <-> Coq Z (binary positives) ---- *)
 let pos_of_bits (bits : bool list) : positive =
@@ -48,36 +47,11 @@ let int_of_z = function Z0 -> 0 | Zpos p -> int_of_pos p | Zneg p -> - (int_of_p
 let rec pos_of_int n = if n = 1 then Coq_xH else if n land 1 = 0 then Coq_xO (pos_of_int (n / 2)) else Coq_xI (pos_of_int (n / 2))
 let z_of_int n = if n = 0 then Z0 else if n > 0 then Zpos (pos_of_int n) else Zneg (pos_of_int (-n))
 
-(* ---- field engine ---- *)
-let fop_names = ["add"; "mul"; "sub"; "div"; "idiv"; "mod"; "pow"; "neg"; "compl"; "shl"; "shr";
-                 "bor"; "band"; "bxor"; "asbool"; "not"; "or"; "and"; "eq"; "lt"; "neq"; "le"; "gt"; "ge"]
-let fop_table = Stdlib.List.combine fop_names Field.all_fops
 
-let show_outcome = function
-  | Ok v -> "ok " ^ hex_of_z v
-  | Err EDivisionByZero -> "err div0"
-  | Err EBitOverflow -> "err shift"
-  | Err (EOther _) -> "err other"
-  | Panic _ -> "panic"
-  | OutOfFuel -> "outoffuel"
-
-let field_line spec line =
-  match Stdlib.String.split_on_char ' ' (Stdlib.String.trim line) with
-  | [op; a; b; p] ->
-    let r = match Stdlib.List.assoc_opt op fop_table with
-      | Some o -> show_outcome ((if spec then FieldSpec.spec_exec else Field.eval) o (z_of_hex a) (z_of_hex b) (z_of_hex p))
-      | None -> "unknown-op" in
-    Printf.sprintf "%s %s %s %s = %s" op a b p r
-  | _ -> "bad-line"
-
-let field_sweep spec p =
-  let pz = z_of_int p in
-  Stdlib.List.iter (fun (name, o) ->
-    for a = 0 to p - 1 do
-      for b = 0 to p - 1 do
-        Printf.printf "%s %x %x %x = %s\n" name a b p (show_outcome ((if spec then FieldSpec.spec_exec else Field.eval) o (z_of_int a) (z_of_int b) pz))
-      done
-    done) fop_table
+let rec nat_of_int n = if n <= 0 then O else S (nat_of_int (n - 1))
+let rec int_of_nat = function O -> 0 | S n -> 1 + int_of_nat n
+let n_of_int n = if n = 0 then N0 else Npos (pos_of_int n)
+let int_of_n = function N0 -> 0 | Npos p -> int_of_pos p
 
 let each_line f =
   try
@@ -87,10 +61,3 @@ let each_line f =
     done
   with End_of_file -> ()
 
-let () =
-  match Array.to_list Sys.argv with
-  | _ :: "field" :: _ -> each_line (field_line false)
-  | _ :: "fieldspec" :: _ -> each_line (field_line true)
-  | _ :: "field-sweep" :: ps -> Stdlib.List.iter (fun p -> field_sweep false (int_of_string p)) ps
-  | _ :: "fieldspec-sweep" :: ps -> Stdlib.List.iter (fun p -> field_sweep true (int_of_string p)) ps
-  | _ -> prerr_endline "usage: driver <engine>"; exit 2
